@@ -124,6 +124,12 @@ def _old(E, node, st):
     s = st.copy()
     s.heap = dict(fr.old.heap)
     s.alloc = fr.old.alloc
+    ep = getattr(fr, "entry_params", None)
+    if ep:
+        # inside old(...) a parameter name denotes the value it had at entry, also when the body has re-assigned it
+        # (loop invariants are evaluated over the current locals)
+        s.env = dict(s.env)
+        s.env.update(ep)
     outs = E.eval(node.args[0], s)
     res = []
     for o in outs:
@@ -133,6 +139,7 @@ def _old(E, node, st):
         s2 = o.st.copy()
         s2.heap = dict(st.heap)
         s2.alloc = st.alloc
+        s2.env = dict(st.env)
         res.append(Out("ok", s2, o.val))
     return res
 
@@ -673,6 +680,7 @@ def spec_bool(E, src, st, env, old_st, contract_frame=None):
                (contract_frame.qual if contract_frame else "spec"))
     fr.old = old_st
     fr.params = dict(env)
+    fr.entry_params = dict(contract_frame.params) if (contract_frame is not None and getattr(contract_frame, "params", None)) else None
     saved = E.frames
     E.frames = saved + [fr]
     try:
